@@ -138,6 +138,10 @@ func main() {
 		}
 		if *stream == "roothash" || *stream == "both" {
 			hists = append(hists, histDesc{Stream: "roothash", HSeed: rng.U64() % 1_000_000, Blocks: 14, Mask: allFeatures, Script: scriptRtSlashReward})
+			// twice: with the debug sanity app (even seed) and without it (odd seed: the production failure)
+			hs := rng.U64() % 1_000_000
+			hists = append(hists, histDesc{Stream: "roothash", HSeed: hs &^ 1, Blocks: 18, Mask: allFeatures, Script: scriptRtSuspendTimeout})
+			hists = append(hists, histDesc{Stream: "roothash", HSeed: hs | 1, Blocks: 18, Mask: allFeatures, Script: scriptRtSuspendTimeout})
 			for i := 0; i < *nrt; i++ {
 				hists = append(hists, histDesc{Stream: "roothash", HSeed: rng.U64() % 1_000_000_000, Blocks: *rtBlocks, Mask: allFeatures})
 			}
@@ -149,9 +153,25 @@ func main() {
 		}
 	}
 
+	seenKnown := map[string]bool{}
 	for _, h := range hists {
 		res := runHistory(h, r, true)
 		r.account(h, res)
+		if res.viol != nil && res.knownKey != "" {
+			// a registered known finding: reported under its key (the driver prints KNOWN-FINDING)
+			if !seenKnown[res.knownKey] {
+				seenKnown[res.knownKey] = true
+				hd := h
+				if int(res.viol.Height) < hd.Blocks {
+					hd.Blocks = int(res.viol.Height)
+				}
+				r.sum.Findings = append(r.sum.Findings, coqout.Finding{Key: res.knownKey,
+					What:   "chain halts: genesis uses the sqrt voting-power distribution with an escrow of at least 2^67 base units; a passed scheduler change-parameters proposal switches to the linear distribution (not validated against the supply) and the next election fails converting that stake: " + res.viol.Detail,
+					Replay: hd})
+			}
+			r.sum.Count("known-finding", res.knownKey)
+			continue
+		}
 		if res.viol != nil && res.findingKey != "" {
 			// regression of the defect fixed by /repo commit c3a21ab (status fixed): a plain violation
 			res.viol.What = res.findingKey + " (fixed defect is back: TransferFromCommon(escrow=true) fails on a pool slashed to zero with a 100 % commission rate, halting the chain in roothash EndBlock): " + res.viol.What
